@@ -27,6 +27,8 @@ define_language! {
         BB(Bind<Bind<AppliedId>>) = "bb",
         // a slot argument next to a child
         Idx(Slot, AppliedId) = "idx",
+        // a slot argument left of a binder (the binder may re-use the argument's name)
+        SB(Slot, Bind<AppliedId>) = "sb",
         // three children (the same child class can occur at non-adjacent positions)
         Ite(AppliedId, AppliedId, AppliedId) = "ite",
     }
@@ -55,6 +57,7 @@ pub static LSYM: LangSig = LangSig {
         OpSig { name: "let", fields: &[Fld::C(1), Fld::C(0)] },
         OpSig { name: "bb", fields: &[Fld::C(2)] },
         OpSig { name: "idx", fields: &[Fld::S, Fld::C(0)] },
+        OpSig { name: "sb", fields: &[Fld::S, Fld::C(1)] },
         OpSig { name: "ite", fields: &[Fld::C(0), Fld::C(0), Fld::C(0)] },
     ],
 };
